@@ -320,7 +320,22 @@ func genKv(r *rand.Rand, tier string) kvInput {
 			in.OnDisk = true
 		}
 	}
+	// one case in three is about views: a design document from the start, a view query every fourth step
+	viewy := r.Intn(3) == 0
+	viewColl := "_default._default"
+	if viewy {
+		if exists["s1.c1"] && r.Intn(3) == 0 {
+			viewColl = "s1.c1"
+		}
+		perm := r.Perm(len(mapSources))
+		in.Ops = append(in.Ops, Step{Kind: "putddoc", Coll: viewColl, Handle: 0, DDoc: "dd",
+			Views: []ViewDef{{Name: "v0", Map: perm[0]}, {Name: "v1", Map: perm[1]}, {Name: "v2", Map: perm[2]}}, Clock: next()})
+	}
 	for i := 0; i < n; i++ {
+		if viewy && r.Intn(4) == 0 {
+			in.Ops = append(in.Ops, Step{Kind: "view", Coll: viewColl, Handle: r.Intn(in.Handles), DDoc: "dd", View: fmt.Sprintf("v%d", r.Intn(3)), VP: genViewParams(r), Clock: next()})
+			continue
+		}
 		if i == motifAt {
 			genMotif(r, motif, &in, exists, hot, next, func() uint64 { return clock })
 		}
